@@ -131,3 +131,33 @@ func H_C18_infoHashes() {
 	del(h0)
 	del(h1)
 }
+
+// H_C18_loop: the REAL event loop Torrent.run with its slow (20 s) ticker delivering up to two
+// ticks and its context cancellable at any point, from an arbitrary fixed configuration: the
+// periodic work contacts a tracker only while tracker use is enabled (and then without ports if
+// proxied), and announces to the DHT only when the DHT mode is not 'none'.
+func H_C18_loop() {
+	t := vConfTorrent()
+	tr := &vTracker{}
+	t.trackers = [][]tracker.Tracker{{tr}}
+	vDhtCalls, vDhtPort = 0, 0
+	vTickers(2, 2)
+	ctx := context.Background()
+	go func() {
+		t.run(ctx)
+		close(t.Deleted)
+	}()
+	<-t.Deleted
+	vJoin()
+	vReach("loop-ended")
+	if tr.calls > 0 {
+		vReach("tracker-contacted")
+	}
+	if vDhtCalls > 0 {
+		vReach("dht-announced")
+	}
+	vAssert(vImp(tr.calls > 0, t.useTrackers), "the periodic loop contacts a tracker only while tracker use is enabled")
+	vAssert(vImp(tr.calls > 0 && t.proxy != "", tr.port4 == 0 && tr.port6 == 0), "the periodic loop reveals no port to a tracker when proxied")
+	vAssert(vImp(vDhtCalls > 0, t.dhtMode > config.DhtNone), "the periodic loop announces to the DHT only when the mode is not 'none'")
+	vAssert(vImp(vDhtPort != 0, t.dhtMode >= config.DhtNormal && t.proxy == ""), "the periodic loop advertises a port only in 'normal' mode without a proxy")
+}
